@@ -167,6 +167,7 @@ type Sim struct {
 	coreQueued   int
 	healing      bool
 	resolverSent bool
+	keySeq       uint64
 	stop         bool
 	addrSets     [][]resolver.Address
 	Opts         Options
@@ -555,6 +556,7 @@ func (s *Sim) checkQuiescent() {
 //go:norace
 func (s *Sim) spawnCore(op int, kind string, conn int, st connectivity.State, addrs string, fn func()) {
 	tag := &TaskTag{Op: op, Phase: PhCore, Call: -1}
+	s.k.KeyHint = s.opKey(op, 2)
 	s.k.Spawn("core:"+kind, 1, tag, func() {
 		s.env.coreMu.Lock()
 		s.env.add(Event{Kind: EvOpStart, Conn: conn, State: st, Addrs: addrs, Note: kind, Call: -1})
@@ -841,7 +843,23 @@ func (s *Sim) startCall(i int, o Op) {
 	}
 	c.tag = &TaskTag{Op: i, Phase: PhPick, Call: c.ID}
 	s.calls = append(s.calls, c)
+	s.k.KeyHint = s.opKey(i, 1)
 	c.task = s.k.Spawn(fmt.Sprintf("call%d", c.ID), 0, c.tag, func() { s.callBody(c) })
+}
+
+// opKey: the schedule-independent key of the n-th task of plan operation op.
+//
+//go:norace
+func (s *Sim) opKey(op int, n uint64) uint64 {
+	id := uint64(op + 1000000)
+	if op >= 0 && op < len(s.plan.Ops) && s.plan.Ops[op].ID != 0 {
+		id = uint64(s.plan.Ops[op].ID)
+	}
+	s.keySeq++
+	if op < 0 || op >= len(s.plan.Ops) {
+		return kern.MixKey(id, n+s.keySeq<<8) // setup / heal tasks: unique per spawn
+	}
+	return kern.MixKey(id, n)
 }
 
 // callBody is the life of one RPC: interceptor -> pick on the chosen picker ->
